@@ -28,12 +28,16 @@ use util::Ctx;
 
 /// largest single allocation request since it was last reset (C15)
 pub static ALLOC_MAX: std::sync::atomic::AtomicUsize = std::sync::atomic::AtomicUsize::new(0);
+/// bytes currently allocated, and their peak since it was last reset (C15)
+pub static ALLOC_LIVE: std::sync::atomic::AtomicUsize = std::sync::atomic::AtomicUsize::new(0);
+pub static ALLOC_PEAK: std::sync::atomic::AtomicUsize = std::sync::atomic::AtomicUsize::new(0);
+fn note(add: usize) { use std::sync::atomic::Ordering::Relaxed; ALLOC_MAX.fetch_max(add, Relaxed); let live = ALLOC_LIVE.fetch_add(add, Relaxed) + add; ALLOC_PEAK.fetch_max(live, Relaxed); }
 struct Tracking;
 unsafe impl std::alloc::GlobalAlloc for Tracking {
-    unsafe fn alloc(&self, l: std::alloc::Layout) -> *mut u8 { ALLOC_MAX.fetch_max(l.size(), std::sync::atomic::Ordering::Relaxed); std::alloc::System.alloc(l) }
-    unsafe fn dealloc(&self, p: *mut u8, l: std::alloc::Layout) { std::alloc::System.dealloc(p, l) }
-    unsafe fn realloc(&self, p: *mut u8, l: std::alloc::Layout, n: usize) -> *mut u8 { ALLOC_MAX.fetch_max(n, std::sync::atomic::Ordering::Relaxed); std::alloc::System.realloc(p, l, n) }
-    unsafe fn alloc_zeroed(&self, l: std::alloc::Layout) -> *mut u8 { ALLOC_MAX.fetch_max(l.size(), std::sync::atomic::Ordering::Relaxed); std::alloc::System.alloc_zeroed(l) }
+    unsafe fn alloc(&self, l: std::alloc::Layout) -> *mut u8 { note(l.size()); std::alloc::System.alloc(l) }
+    unsafe fn dealloc(&self, p: *mut u8, l: std::alloc::Layout) { ALLOC_LIVE.fetch_sub(l.size(), std::sync::atomic::Ordering::Relaxed); std::alloc::System.dealloc(p, l) }
+    unsafe fn realloc(&self, p: *mut u8, l: std::alloc::Layout, n: usize) -> *mut u8 { ALLOC_LIVE.fetch_sub(l.size(), std::sync::atomic::Ordering::Relaxed); note(n); std::alloc::System.realloc(p, l, n) }
+    unsafe fn alloc_zeroed(&self, l: std::alloc::Layout) -> *mut u8 { note(l.size()); std::alloc::System.alloc_zeroed(l) }
 }
 #[global_allocator]
 static GLOBAL: Tracking = Tracking;
